@@ -75,6 +75,22 @@ def jobs(tier):
   observed = show_matrix(th->_dists, n) + why; required = "closure of the old matrix plus the edge; predecessors = last hops";
 ''' % '62'},
                    bounded='%d time points (3 in quick, 4 in thorough); finite weights in [-3, 3] plus the inf() sentinel; no registered undecided constraints (the re-propagation loop is empty)' % N))
+    if tier == 'quick' or True:
+        # the same step at 4 time points (the i x j double loop needs them), split into two jobs so that each stays within the
+        # time a per-change check may take: distances / predecessors are proved from the same preconditions in parallel
+        import copy
+        for part, keep in (('distances', ('noexcept', 'distances_are_the_exact_closure', 'still_closed', 'nothing_learnt_without_registered_constraints')),
+                           ('predecessors', ('predecessors_are_last_hops_of_shortest_paths', 'edges_respected'))):
+            j4 = copy.copy(out[0])
+            N4 = 4
+            j4.name = 'idl.propagate_edge_4_' + part
+            j4.contract = Contract(requires=list(c.requires), ensures=[e for e in c.ensures if e[0] in keep], assigns=c.assigns)
+            j4.defines = dict(d, XT_N=N4)
+            j4.caps = dict(caps, vec_vec_I=N4, vec_I=N4, vec_vec_U=N4, vec_U=N4, vec_pair_U_U=2 + 4 * N4 + 2 * N4 * N4)
+            j4.unwind, j4.model_unwind, j4.loop_unwind = N4 + 2, max(2 + 4 * N4 + 2 * N4 * N4, 12) + 1, {6: 2 + 4 * N4 + 2 * N4 * N4 + 2}
+            j4.bounded = '4 time points; finite weights in [-3, 3] plus the inf() sentinel; no registered undecided constraints; the postconditions of the step are split over two jobs'
+            if tier == 'quick':
+                out.append(j4)
     out.append(lit_job(tier, c))
     out.append(resize_job(tier))
     out.extend(hops_jobs(tier, c))
